@@ -3,6 +3,7 @@ package oraclefeed
 import (
 	"fmt"
 	"math/big"
+	"regexp"
 
 	"verif/sim/engine"
 	servicemod "verif/sim/mods/service"
@@ -89,7 +90,7 @@ func (m *Module) Gen(w *engine.World, r *engine.Rand) *engine.TxPlan {
 			}
 		}
 	}
-	wt := make([]int, 7)
+	wt := make([]int, 9)
 	if len(m.ord) < m.cfg.MaxFeeds+btoi(m.cfg.PriceFeed) {
 		wt[0] = 12
 		if len(m.ord) == 0 {
@@ -119,6 +120,13 @@ func (m *Module) Gen(w *engine.World, r *engine.Rand) *engine.TxPlan {
 	if m.cfg.PriceFeed && m.feeds[PriceFeedName] != nil {
 		wt[6] = 6
 	}
+	all := append(append([]*feed{}, running...), paused...)
+	if flips := m.flipCandidates(w, running); len(flips) > 0 {
+		wt[7] = int(6 * m.cfg.PThrFlip)
+	}
+	if len(all) > 0 {
+		wt[8] = int(3 * m.cfg.PRollback)
+	}
 	for try := 0; try < 3; try++ {
 		var tp *engine.TxPlan
 		switch r.Weighted(wt) {
@@ -136,6 +144,10 @@ func (m *Module) Gen(w *engine.World, r *engine.Rand) *engine.TxPlan {
 			tp = m.genRefill(w, r)
 		case 6:
 			tp = m.genPriced(w, r, svc)
+		case 7:
+			tp = m.genThresholdFlip(w, r, running)
+		case 8:
+			tp = m.genRolledBackEdit(w, r, all)
 		}
 		if tp != nil {
 			return tp
@@ -181,6 +193,9 @@ func pickProviders(r *engine.Rand, si servicemod.ServiceInfo, rate *big.Rat) (pr
 	if k > 4 {
 		k = 1 + r.Intn(4)
 	}
+	if k == 1 && len(cands) >= 2 && r.Bool(0.6) {
+		k = 2 // thresholds 1 and 2 are both meaningful with two providers
+	}
 	for _, i := range r.Perm(len(cands))[:k] {
 		p := cands[i]
 		provs = append(provs, p.Addr)
@@ -202,7 +217,8 @@ func pickProviders(r *engine.Rand, si servicemod.ServiceInfo, rate *big.Rat) (pr
 
 func (m *Module) curRate() *big.Rat {
 	if f := m.feeds[PriceFeedName]; f != nil && len(f.values) > 0 {
-		if v, ok := new(big.Rat).SetString(f.values[0].seen); ok && v.Sign() > 0 {
+		// (a rate beyond anything the price feed's providers answer is not used for guidance)
+		if v, ok := new(big.Rat).SetString(f.values[0].seen); ok && v.Sign() > 0 && v.Cmp(big.NewRat(1000, 1)) < 0 {
 			return v
 		}
 	}
@@ -247,6 +263,24 @@ func (m *Module) genCreate(w *engine.World, r *engine.Rand, svc *servicemod.Modu
 	a := createArgs{Service: si.Name, Providers: provs, Desc: "simchain feed"}
 	m.nextFeed++
 	a.Name = fmt.Sprintf("feed%d", m.nextFeed)
+	related := ""
+	if len(m.ord) > 0 && r.Bool(m.cfg.PPrefixName) {
+		// names in prefix relation ("eth" / "ethusd", "feed1" / "feed10"): the values of one
+		// feed must never be taken for the other's
+		other := m.ord[r.Intn(len(m.ord))]
+		cand := ""
+		if r.Bool(0.65) || len(other) < 2 {
+			cand = other + string("0a_x/-Z9"[r.Intn(8)])
+			if r.Bool(0.3) {
+				cand += string("0usd"[r.Intn(4)])
+			}
+		} else {
+			cand = other[:1+r.Intn(len(other)-1)]
+		}
+		if m.feeds[cand] == nil && nameRe.MatchString(cand) {
+			a.Name, related = cand, other
+		}
+	}
 	if m.cfg.PriceFeed && m.feeds[PriceFeedName] == nil && (m.nextFeed == 1 || r.Bool(0.5)) {
 		a.Name = PriceFeedName
 	} else if len(m.ord) > 0 && r.Bool(m.cfg.PInvalid) {
@@ -273,6 +307,10 @@ func (m *Module) genCreate(w *engine.World, r *engine.Rand, svc *servicemod.Modu
 		a.History = 100
 	default:
 		a.History = uint64(1 + r.Intn(100))
+	}
+	if o := m.feeds[related]; o != nil && a.Name != PriceFeedName && o.History == a.History {
+		// the two histories have different bounds
+		a.History = a.History%100 + 1
 	}
 	if r.Bool(m.cfg.PInvalid) {
 		switch r.Intn(6) {
@@ -403,6 +441,77 @@ func (m *Module) genEdit(w *engine.World, r *engine.Rand, svc *servicemod.Module
 	tp := engine.Tx1(engine.NewOp(Name, "edit", actor, a))
 	m.retime(w, r, svc, f, tp)
 	return tp
+}
+
+var nameRe = regexp.MustCompile(`^[a-zA-Z][a-zA-Z0-9/_-]*$`)
+
+// flipCandidates: running feeds with at least two providers and a batch in flight that is
+// still open in the next block.
+func (m *Module) flipCandidates(w *engine.World, running []*feed) []*feed {
+	var out []*feed
+	for _, f := range running {
+		if len(f.Providers) < 2 {
+			continue
+		}
+		for _, b := range f.batches {
+			if !b.done && b.Exp >= w.Height+1 && len(b.ord) >= 2 {
+				out = append(out, f)
+				break
+			}
+		}
+	}
+	return out
+}
+
+// genThresholdFlip edits the threshold of a feed while one of its batches is in flight, up or
+// down: the open batch keeps the threshold it was issued with.
+func (m *Module) genThresholdFlip(w *engine.World, r *engine.Rand, running []*feed) *engine.TxPlan {
+	cands := m.flipCandidates(w, running)
+	if len(cands) == 0 {
+		return nil
+	}
+	f := cands[r.Intn(len(cands))]
+	n := uint32(len(f.Providers))
+	thr := f.Threshold
+	switch {
+	case thr <= 1:
+		thr = 2 + uint32(r.Intn(int(n-1)))
+	case thr >= n:
+		thr = 1 + uint32(r.Intn(int(n-1)))
+	case r.Bool(0.5):
+		thr++
+	default:
+		thr--
+	}
+	tp := engine.Tx1(engine.NewOp(Name, "edit", f.CreatorIdx, editArgs{Name: f.Name, Threshold: thr}))
+	tp.At = w.Height + 1 // lands inside the open batch
+	return tp
+}
+
+// genRolledBackEdit sends an edit of the latest-history bound together with a message that
+// fails at execution: the whole transaction rolls back and the committed bound stays in force.
+func (m *Module) genRolledBackEdit(w *engine.World, r *engine.Rand, fs []*feed) *engine.TxPlan {
+	if len(fs) == 0 {
+		return nil
+	}
+	f := fs[r.Intn(len(fs))]
+	a := editArgs{Name: f.Name}
+	switch {
+	case f.History > 1 && r.Bool(0.5):
+		a.History = 1 + uint64(r.Intn(int(f.History-1))) // smaller
+	default:
+		a.History = f.History + uint64(1+r.Intn(5)) // larger
+		if a.History > 100 {
+			a.History = 100
+		}
+	}
+	if r.Bool(0.3) {
+		a.Threshold = uint32(1 + r.Intn(len(f.Providers)))
+	}
+	return &engine.TxPlan{Ops: []*engine.Op{
+		engine.NewOp(Name, "edit", f.CreatorIdx, a),
+		engine.NewOp(Name, "fail", f.CreatorIdx, nil),
+	}}
 }
 
 // genDrain empties a feed creator's pocket so that the next batch cannot be paid for.
